@@ -89,13 +89,19 @@ theorem run_head (m : Nat) (w : Width) (v : Nat) (h : w.fits v) (rest : Bytes) (
 theorem ai_le_27 (w : Width) (v : Nat) (h : w.fits v) : w.ai v ≤ 27 := by
   cases w <;> simp [Width.ai, Width.fits, Width.bound] at * <;> omega
 
-theorem run_readN (bs rest : Bytes) : (readN bs.length).run (bs ++ rest) = .ok (bs, rest) := by
-  induction bs with
-  | nil => simp [readN]
+theorem run_readNAux (bs acc rest : Bytes) :
+    (readNAux bs.length acc).run (bs ++ rest) = .ok (acc.reverse ++ bs, rest) := by
+  induction bs generalizing acc with
+  | nil => simp [readNAux]
   | cons b bs ih =>
-    simp only [List.length_cons, readN, List.cons_append, Prog.run_next_cons]
-    rw [Prog.run_bind_ok _ _ _ _ _ ih]
+    simp only [List.length_cons, readNAux, List.cons_append, Prog.run_next_cons]
+    rw [ih (b :: acc)]
     simp
+
+theorem run_readN (bs rest : Bytes) : (readN bs.length).run (bs ++ rest) = .ok (bs, rest) := by
+  unfold readN
+  rw [run_readNAux]
+  simp
 
 theorem peek_head (m : Nat) (hm : m < 7) (w : Width) (v : Nat) (h : w.fits v) (rest : Bytes) (f : Nat → Prog α) :
     (peekType >>= f).run (head m w v ++ rest) = (f (m * 32)).run (head m w v ++ rest) := by
